@@ -124,8 +124,38 @@ def violation(prop, klass, detail, signature=None):
     }
 
 
+class _Prop:
+    """property module whose execute() always runs on a fresh thread stack, so
+    that stack-depth dependent behaviour of the code under test (RecursionError)
+    does not depend on where in the harness the run was started from"""
+
+    def __init__(self, mod):
+        self._mod = mod
+
+    def __getattr__(self, name):
+        return getattr(self._mod, name)
+
+    def execute(self, scn):
+        import threading
+
+        box = {}
+
+        def body():
+            try:
+                box["out"] = self._mod.execute(scn)
+            except BaseException as e:  # pylint: disable=broad-except
+                box["err"] = e
+
+        t = threading.Thread(target=body, name="sim-run")
+        t.start()
+        t.join()
+        if "err" in box:
+            raise box["err"]
+        return box["out"]
+
+
 def load_prop(prop):
-    return importlib.import_module(f"sim.props.{prop.lower()}")
+    return _Prop(importlib.import_module(f"sim.props.{prop.lower()}"))
 
 
 # ---------------------------------------------------------------------------
